@@ -61,7 +61,34 @@ META["C10"] = {"files": ["value.c"], "functions": ["cif_value_parse_numb"], "stu
                "outside": ["strings longer than the bound", "correct rounding of to_double/to_digits unless listed in queries",
                            "cif_value_autoinit_numb (libc sprintf/strtol)"]}
 
-REG = {"C20": c20, "C10": c10}
+
+# ------------------------------------------------------------------------------------------ C18
+def c18(tier):
+    qs = []
+    K = 5 if tier == "quick" else 7
+    for mode in ("func", "safety"):
+        qs.append(Q("C18_stat_K%d_%s" % (K, mode), "h18_stat.c", defs={"KLEN": K}, extra=ICU, unwind=K + 3, mode=mode,
+                    replay_libs=ICU_LIBS, native_extra=NATIVE_ICU, kf=["ANALYZE_CRLF_FIRST"],
+                    unwindset=["cif_analyze_string.*:%d" % (K + 3), "u_strstr.*:%d" % (K + 2)],
+                    bounds={"string": "<= %d units, full 16-bit alphabet" % K, "flags": "both", "length_limit": "8..2048"},
+                    note="cif_analyze_string statistics vs reference"))
+    K = 8
+    qs.append(Q("C18_res_K%d" % K, "h18_res.c", defs={"KLEN": K}, extra=ICU, unwind=K + 2, mode="func",
+                replay_libs=ICU_LIBS, native_extra=NATIVE_ICU,
+                bounds={"string": "<= %d units, full alphabet" % K}, note="cif_is_reserved_string vs reference predicate"))
+    K = 5 if tier == "quick" else 8
+    qs.append(Q("C18_unq_K%d" % K, "h18_unq.c", defs={"KLEN": K}, extra=ICU, libtus=["utils.c"], unwind=K + 2, mode="func",
+                replay_libs=ICU_LIBS, native_extra=NATIVE_ICU, unwindset=["cif_value_free:2", "cif_value_clean:2", "u_strpbrk.*:%d" % max(K + 2, 10)],
+                bounds={"string": "<= %d units over the CIF 2.0 character set" % K},
+                note="cif_value_set_quoted / try_quoted(NOT_QUOTED) vs reference predicate"))
+    return qs
+
+
+META["C18"] = {"files": ["utils.c", "value.c"], "functions": ["cif_analyze_string", "cif_is_reserved_string", "cif_value_set_quoted", "cif_value_try_quoted"],
+               "stubs": ["stubs/icu_str.c (exact ICU string helpers)"], "assumptions": ["malloc does not fail"],
+               "outside": ["strings longer than the bound", "read-back of the recommended delimiter by the parser unless a C18_delim query is listed"]}
+
+REG = {"C20": c20, "C10": c10, "C18": c18}
 
 
 def for_property(pid, tier):
@@ -77,3 +104,15 @@ MANI["C20"] = {
             "contains the distinguishing keywords of its code.",
     "note": "code list extracted textually from cif.h at run time; 'describes that very condition' is judged by the loose keyword oracle "
             "oracles/errlist_keywords.json written from the @brief text of each code"}
+
+MANI["C10"] = {
+    "text": "Bounded model checking of the real cif_value_parse_numb against a reference parser of the numeric grammar: acceptance, "
+            "CIF_INVALID_NUMBER + untouched value on rejection, sign/digits/scale/su decomposition on acceptance, for ALL strings of 16-bit "
+            "code units up to the stated length, plus structured long-exponent inputs with signed-overflow checks.",
+    "note": "strings <= 9 (quick) / 12 (thorough) units; malloc succeeds; correct rounding of to_double/to_digits and the formatters are "
+            "claimed only where a query for them is listed in evidence; cif_value_autoinit_numb (libc sprintf) is outside"}
+MANI["C18"] = {
+    "text": "Bounded model checking of the real cif_analyze_string, cif_is_reserved_string, cif_value_set_quoted/try_quoted against "
+            "reference computations written from cif.h, for all strings up to the stated length x both flags x length limits 8..2048.",
+    "note": "strings <= 5..8 units (see evidence); ICU string helpers replaced by exact models (validated against real ICU in setup); "
+            "permissive where cif.h is silent (blanks at end of string, VT as whitespace)"}
